@@ -312,12 +312,30 @@ def _bucket(n):
     return "1" if n <= 1 else "2-7" if n < 8 else "8-31" if n < 32 else "32+"
 
 
+_WARM = []
+
+
+def _warmup():
+    """one tiny mapper run so that the numba JIT cost does not count as a slow reference run of the first spec"""
+    if _WARM:
+        return
+    _WARM.append(1)
+    es, rvs = G.chain(2)
+    sp = {"shape": "chain2", "einsums": es, "bounds": {rv: 1 for rv in rvs}, "bits": {"All": 8}, "n_instances": 1,
+          "nodes": [{"type": "Memory", "name": "Main", "size": "inf", "keep": "~Intermediates", "may_keep": "All", "read": [2, 1], "write": [2, 1], "leak": 0},
+                    {"type": "Memory", "name": "GLB", "size": "inf", "keep": "~Main", "may_keep": "All", "read": [1, 1], "write": [1, 1], "leak": 0},
+                    {"type": "Compute", "name": "MAC", "compute": [1, 1], "leak": 0}],
+          "mapper": {"metrics": "ENERGY"}}
+    run_config(sp, {"n_jobs": 1})
+
+
 def check(desc, col):
     sp = desc["spec"]
     hash_seeds = list(desc.get("hash_seeds", []))
     helpers = [_helper(h) for h in hash_seeds]
     for h in helpers:
         h.send({"spec": sp, "configs": [{"n_jobs": 1}]})
+    _warmup()
     ref = run_config(sp, {"n_jobs": 1, "instrument": True})
     slow = ref.get("t", 0) > SLOW_S or ref["status"] != "ok"
     results = []          # (config name, family tag, result)
@@ -423,7 +441,7 @@ def cases(draw, n_hook, hash_seeds):
     return {"spec": sp, "hook_seeds": seeds, "hash_seeds": list(hash_seeds), "real": True, "cache": True}
 
 
-N = {"quick": (4, 3, 3), "thorough": (10, 6, 6)}     # shards, specs per shard, hook seeds
+N = {"quick": (5, 2, 3), "thorough": (10, 6, 6)}     # shards, specs per shard, hook seeds
 
 
 def shards(tier, seed):
@@ -450,7 +468,18 @@ def replay(desc, col):
 REGISTER = True
 QUICK_BUDGET_S = 600
 THOROUGH_BUDGET_S = 3000
-MUTANTS = []
+MUTANTS = [
+    {"what": "unchanged tree = 'result list filled in arrival order': make_pmappings extends pmapping_groups in generator_unordered arrival order", "caught": True,
+     "how": "completion-order:tie-structure (genuine defect, regress/C20/completion_order_tie_chain2.json; passes with regress/C20/suggested_fix.diff)"},
+    {"what": "(on top of the suggested fix) main.py: cache key omits spec.mapper (key = (arch, workload, einsum_names, flag), kwargs ignored)", "caught": True,
+     "how": "cache:front-size: cold read after the sibling spec (other metrics) returns the sibling's pmappings"},
+    {"what": "(on top of the fix) make_pmappings: calls ordered by hash(str(compatibility)) instead of mapping length", "caught": True,
+     "how": "hashseed:tie-structure under the per-shard drawn PYTHONHASHSEED"},
+    {"what": "(on top of the fix) util/parallel.py: results[i] = result -> results.append(result)", "caught": True,
+     "how": "completion-order:status (4-worker configurations crash, reference is ok)"},
+    {"what": "(on top of the fix) util/_frozenset.py: oset.__iter__ unsorted; and oset.__iter__ + fzs.__iter__ both unsorted", "caught": False,
+     "how": "survived; a separate probe (6 specs incl. the tie spec, PYTHONHASHSEED 0/1/4242, un-canonicalised trees) shows bit-identical output: behaviourally equivalent on this domain, downstream code re-sorts"},
+]
 MANIFEST = {
     "level_text": "Differential testing of map_workload_to_arch against itself across configurations on generated 2-3 Einsum specs: 1 worker vs seeded permuted completion orders (schedule hook) vs real loky workers vs other PYTHONHASHSEED values (helper processes) vs cold/warm/cross-process cache_dir reads (with a sibling spec differing only in spec.mapper already cached): sorted (objective vector, canonical mapping structure) lists must be identical. No counterexample in N specs x ~10 configurations beyond the listed known findings; not a proof.",
     "level_note": "Trusted: vf/gen/canon.py as the identity of a mapping structure; the hook's permutations are schedules real workers could produce. Small specs only (2-3 Einsums, bounds <= 6).",
